@@ -251,6 +251,11 @@ func gstmt1(s ast.Stmt) string {
 			t := gty(info.TypeOf(x.Lhs[0]))
 			return fmt.Sprintf("(.assign %s (.bin %s %s %s %s))", leanStr(srcText(x.Lhs[0])), leanStr(op), t, gexpr(x.Lhs[0]), gexpr(x.Rhs[0]))
 		}
+		if gRich && len(x.Lhs) == 1 && len(x.Rhs) == 1 {
+			if r, ok := richAssign(x.Lhs[0], x.Rhs[0]); ok {
+				return r
+			}
+		}
 		if len(x.Rhs) == 1 && len(x.Lhs) >= 1 {
 			if c, ok := x.Rhs[0].(*ast.CallExpr); ok {
 				if ftv, isT := info.Types[c.Fun]; !(isT && ftv.IsType()) && len(x.Lhs) > 1 {
@@ -372,7 +377,7 @@ func gstmt1(s ast.Stmt) string {
 		}
 		// `for _, v := range X` over a slice, in the functions listed in gstmtValueRange: the same
 		// counted loop, with `v` bound to the leaf `X[#i]` at the head of every round
-		if vid, ok := x.Value.(*ast.Ident); ok && gstmtValueRange[gstmtCur] {
+		if vid, ok := x.Value.(*ast.Ident); ok && (gstmtValueRange[gstmtCur] || gRich) {
 			if kid, isId := x.Key.(*ast.Ident); x.Key == nil || (isId && kid.Name == "_") {
 				if t := info.TypeOf(x.X); t != nil {
 					if _, isSlice := t.Underlying().(*types.Slice); isSlice {
@@ -498,11 +503,141 @@ var gstmtCur string
 var gstmtValueRange = map[string]bool{"ModbusServer.Stop": true, "cli.main": true, "ModbusServer.extractRole": true, "crc.add": true}
 var gstmtTypedAppend = map[string]bool{"decodeBools": true, "encodeBools": true, "bytesToUint16s": true, "uint16sToBytes": true}
 
+// gRich: the second, richer rendering (`gsp_<fn>`) of the functions that BUILD byte strings: every
+// `append`, every `[]byte{…}` literal and every field of a struct literal becomes a statement of its
+// own, so that the bytes a request / response / frame is made of can be read off a run
+var gRich bool
+var gRichN int
+var gstmtRichFuncs = map[string]bool{
+	"ModbusClient.readBools": true, "ModbusClient.readRegisters": true, "ModbusClient.writeRegisters": true,
+	"ModbusClient.WriteCoil": true, "ModbusClient.WriteCoils": true, "ModbusClient.WriteRegister": true,
+	"ModbusClient.WriteRegisters": true, "ModbusClient.WriteUint32s": true, "ModbusClient.WriteFloat32s": true,
+	"ModbusClient.WriteUint64s": true, "ModbusClient.WriteFloat64s": true, "ModbusClient.writeBytes": true,
+	"ModbusServer.handleTransport": true,
+	"tcpTransport.assembleMBAPFrame": true, "rtuTransport.assembleRTUFrame": true,
+}
+var gstmtsRich = map[string]string{}
+
+func isByteSliceLit(e ast.Expr) (*ast.CompositeLit, bool) {
+	cl, ok := e.(*ast.CompositeLit)
+	if !ok {
+		return nil, false
+	}
+	if t := info.TypeOf(cl); t != nil {
+		if sl, ok := t.Underlying().(*types.Slice); ok {
+			if b, ok := sl.Elem().Underlying().(*types.Basic); ok && b.Kind() == types.Uint8 {
+				return cl, true
+			}
+		}
+	}
+	return nil, false
+}
+
+// richArg renders an argument; a call of a (non-builtin, non-conversion) function is bound to a
+// temporary first, so that the callee and ITS arguments stay visible
+func richArg(e ast.Expr, pre *[]string) string {
+	if p, ok := e.(*ast.ParenExpr); ok {
+		return richArg(p.X, pre)
+	}
+	if c, ok := e.(*ast.CallExpr); ok {
+		if ftv, isT := info.Types[c.Fun]; !(isT && ftv.IsType()) {
+			id, isId := c.Fun.(*ast.Ident)
+			if !(isId && (id.Name == "len" || id.Name == "cap" || id.Name == "append" || id.Name == "make")) {
+				var args []string
+				for _, a := range c.Args {
+					args = append(args, richArg(a, pre))
+				}
+				tmp := fmt.Sprintf("#arg%d", gRichN)
+				gRichN++
+				*pre = append(*pre, fmt.Sprintf("(.bindCall [%s] %s [%s])", leanStr(tmp), leanStr(exprStr(c.Fun)), strings.Join(args, ", ")))
+				return fmt.Sprintf("(.var %s %s)", leanStr(tmp), gty(info.TypeOf(e)))
+			}
+		}
+	}
+	if cl, ok := isByteSliceLit(e); ok {
+		var args []string
+		for _, el := range cl.Elts {
+			args = append(args, richArg(el, pre))
+		}
+		tmp := fmt.Sprintf("#arg%d", gRichN)
+		gRichN++
+		*pre = append(*pre, fmt.Sprintf("(.bindCall [%s] \"bytes\" [%s])", leanStr(tmp), strings.Join(args, ", ")))
+		return fmt.Sprintf("(.var %s .other)", leanStr(tmp))
+	}
+	return gexpr(e)
+}
+
+func richAssign(lhs, rhs ast.Expr) (string, bool) {
+	target := srcText(lhs)
+	var pre []string
+	if p, ok := rhs.(*ast.ParenExpr); ok {
+		rhs = p.X
+	}
+	// x = append(y, a, b) / x = append(y, z...)
+	if c, ok := rhs.(*ast.CallExpr); ok {
+		if id, isId := c.Fun.(*ast.Ident); isId && id.Name == "append" && len(c.Args) >= 1 {
+			if _, isB := info.Uses[id].(*types.Builtin); isB {
+				var args []string
+				for _, a := range c.Args {
+					args = append(args, richArg(a, &pre))
+				}
+				name := "append"
+				if c.Ellipsis.IsValid() {
+					name = "append..."
+				}
+				return gseq(append(pre, fmt.Sprintf("(.bindCall [%s] %s [%s])", leanStr(target), leanStr(name), strings.Join(args, ", ")))), true
+			}
+		}
+		return "", false
+	}
+	// x = []byte{a, b}
+	if cl, ok := isByteSliceLit(rhs); ok {
+		var args []string
+		for _, el := range cl.Elts {
+			args = append(args, richArg(el, &pre))
+		}
+		return gseq(append(pre, fmt.Sprintf("(.bindCall [%s] \"bytes\" [%s])", leanStr(target), strings.Join(args, ", ")))), true
+	}
+	// x = &T{ f: e, … } / x = T{ f: e, … }: the literal as before, then one statement per field
+	lit := rhs
+	if u, ok := rhs.(*ast.UnaryExpr); ok && u.Op == token.AND {
+		lit = u.X
+	}
+	if cl, ok := lit.(*ast.CompositeLit); ok {
+		if t := info.TypeOf(cl); t != nil {
+			if _, isStruct := t.Underlying().(*types.Struct); isStruct {
+				out := []string{fmt.Sprintf("(.assign %s (.call %s .other))", leanStr(target), leanStr(srcText(rhs)))}
+				for _, el := range cl.Elts {
+					kv, ok := el.(*ast.KeyValueExpr)
+					if !ok {
+						return "", false
+					}
+					k, ok := kv.Key.(*ast.Ident)
+					if !ok {
+						return "", false
+					}
+					var fpre []string
+					v := richArg(kv.Value, &fpre)
+					out = append(out, fpre...)
+					out = append(out, fmt.Sprintf("(.assign %s %s)", leanStr(target+"."+k.Name), v))
+				}
+				return gseq(out), true
+			}
+		}
+	}
+	return "", false
+}
+
 func collectGStmt(fn string, fd *ast.FuncDecl, out map[string]string) {
 	if !gstmtFuncs[fn] || fd.Body == nil {
 		return
 	}
 	gstmtCur = fn
+	if gstmtRichFuncs[fn] {
+		gRich, gRichN = true, 0
+		gstmtsRich[fn] = gstmts(fd.Body.List)
+		gRich = false
+	}
 	out[fn] = gstmts(fd.Body.List)
 	ps := []string{}
 	for _, f := range fd.Type.Params.List {
